@@ -4,6 +4,7 @@ C01 — Bus access respects the PROFIBUS idle times (station-level obligations).
 import ProfiVerif.Model.Station
 import ProfiVerif.Lemmas.StationWho
 import ProfiVerif.Lemmas.StationMark
+import ProfiVerif.Lemmas.StationHandshake
 
 namespace PV.C01
 open PV
@@ -124,5 +125,151 @@ def pEx : Params :=
 def sEx : Station :=
   { (Station.new pEx) with online := true, st := .passToken false .first, lastBusActivity := some 0 }
 example : ∃ c', sEx.poll [] 1000 false [] = .ok c' ∧ c'.tx = some [0xDC, 3, 3] := ⟨_, rfl, rfl⟩
+
+/-! ## Two-party handshake timing (token hand-over, request/reply)
+
+Theorems about ONE station model each (parts 1, 2, 4) and pure arithmetic about poll times (part 3).
+The shared bus enters only through named hypotheses on what a station finds in its receive buffer at
+its polls.  Which start states accept a token at all: `ActiveIdle` without pending status request
+(from the registered predecessor, or from the pending stranger on its repeated offer) and
+`CheckTokenPass` before the slot time of the own pass has expired (from the registered predecessor
+only) — `C11.accept_only_from_ps_or_repeat`, `C11.pass_supervision`; a station in `ListenToken` never
+accepts (`C11.listener_never_accepts`). -/
+
+/-- **Part 1a, accepting poll** (`ActiveIdle`, any `new_previous_station`, any collision count, no
+status request pending).  The station is polled at `p1` (PHY idle, later than its stamp) with a buffer
+that decodes to exactly the token addressed to it, from the registered predecessor or from the pending
+stranger; the token-lost time-out has not run out (automatic when the last byte of the token is new at
+this poll).  Then: nothing is transmitted, no application is called, the buffer is consumed, and the
+station is in `UseToken` with `token_time = p1`, bus-activity stamp `p1`, pending count 0. -/
+theorem token_accepted_idle (s : Station) (apps : Apps) (p1 : Int) (rx rx' : Bytes) (np : Option Nat) (coll : Nat)
+    (da sa : UInt8) (ret : Bool) (hon : s.online = true) (hst : s.st = .activeIdle none np coll)
+    (hlate : ∀ l, s.lastBusActivity = some l → l < p1) (hto : 0 < s.p.tokenLostTimeout)
+    (hfresh : s.pendingBytes < rx.length ∨ ∃ l, s.lastBusActivity = some l ∧ p1 < l + (s.p.tokenLostTimeout : Nat))
+    (hrx : receiveAll rx = .done rx' [(.token da sa, true)] ret)
+    (hda : da.toNat = s.p.address) (hsa : sa.toNat ≠ s.p.address) (hsrc : sa.toNat = s.ring.ps ∨ np = some sa.toNat) :
+    ∃ c1, s.poll apps p1 false rx = .ok c1 ∧ c1.tx = none ∧ c1.calls = [] ∧ c1.rx = [] ∧ c1.apps = apps ∧
+      c1.s.st = .useToken ⟨p1, none⟩ false ∧ c1.s.lastBusActivity = some p1 ∧ c1.s.pendingBytes = 0 ∧
+      c1.s.p = s.p ∧ c1.s.online = true := by
+  have hrx' : rx' = [] := receiveAll_true_empty rx rx' _ ret hrx ⟨(.token da sa, true), List.mem_singleton.mpr rfl, rfl⟩
+  subst hrx'
+  exact ⟨_, idle_poll_accepts s apps p1 rx [] np coll da sa ret hon hst hlate hto hfresh hrx hda hsa hsrc,
+    rfl, rfl, rfl, rfl, rfl, rfl, rfl, rfl, hon⟩
+
+/-- **Part 1a', accepting poll from `CheckTokenPass`** (own pass still supervised, slot time not expired
+— automatic when the last byte of the token is new at this poll): only the registered predecessor's
+token is accepted; same result. -/
+theorem token_accepted_check (s : Station) (apps : Apps) (p1 : Int) (rx rx' : Bytes) (att : Attempt)
+    (da sa : UInt8) (ret : Bool) (hon : s.online = true) (hst : s.st = .checkTokenPass att)
+    (hlate : ∀ l, s.lastBusActivity = some l → l < p1)
+    (hfresh : s.pendingBytes < rx.length ∨ ∃ l, s.lastBusActivity = some l ∧ p1 ≤ l + (s.p.slotTime : Nat))
+    (hrx : receiveAll rx = .done rx' [(.token da sa, true)] ret)
+    (hda : da.toNat = s.p.address) (hsa : sa.toNat ≠ s.p.address) (hsrc : sa.toNat = s.ring.ps) :
+    ∃ c1, s.poll apps p1 false rx = .ok c1 ∧ c1.tx = none ∧ c1.calls = [] ∧ c1.rx = [] ∧ c1.apps = apps ∧
+      c1.s.st = .useToken ⟨p1, none⟩ false ∧ c1.s.lastBusActivity = some p1 ∧ c1.s.pendingBytes = 0 ∧
+      c1.s.p = s.p ∧ c1.s.online = true := by
+  have hrx' : rx' = [] := receiveAll_true_empty rx rx' _ ret hrx ⟨(.token da sa, true), List.mem_singleton.mpr rfl, rfl⟩
+  subst hrx'
+  exact ⟨_, check_poll_accepts s apps p1 rx [] att da sa ret hon hst hlate hfresh hrx hda hsa hsrc,
+    rfl, rfl, rfl, rfl, rfl, rfl, rfl, rfl, hon⟩
+
+/-- **Part 1b, `holder_starts_after_pause`.**  A token holder in `UseToken` (any `token_time`, any
+`first_cycle_done`) with bus-activity stamp `l`, under the station invariant, on a silent bus (PHY
+idle, empty receive buffer at every poll): for ANY polls `early` at times `≤ l + 33 bit` (any number,
+any order) followed by ANY poll at a time `t > l + 33 bit`, none of the early polls transmits, calls an
+application or panics, and the poll at `t` — the FIRST poll later than the synchronisation pause —
+transmits: an application telegram, a GAP poll or the token with the own source address, and stamps
+its predicted end (`QuietThenTx`).  No second poll is ever needed (repair of finding K3: `UseToken`
+passes the token in the same poll when the applications decline). -/
+theorem holder_starts_after_pause (s : Station) (apps : Apps) (l : Int) (d : UseData) (fcd : Bool)
+    (hinv : Inv s apps) (hon : s.online = true) (hst : s.st = .useToken d fcd) (hl : s.lastBusActivity = some l)
+    (early : List Int) (t : Int) (hearly : ∀ e ∈ early, e ≤ l + (s.p.bits 33 : Nat)) (ht : l + (s.p.bits 33 : Nat) < t) :
+    QuietThenTx s.p.address s apps early t :=
+  holder_schedule s.p.address s.p l t d fcd ht early s apps hinv hon hst hl rfl rfl hearly
+
+/-- **Part 1, `handover_receiver_starts`** (`ActiveIdle` start).  The accepting poll at `p1` followed by
+any silent-bus schedule: no poll at a time `≤ p1 + 33 bit` transmits, the first poll at a time
+`> p1 + 33 bit` does. -/
+theorem handover_receiver_starts (s : Station) (apps : Apps) (p1 : Int) (rx rx' : Bytes) (np : Option Nat) (coll : Nat)
+    (da sa : UInt8) (ret : Bool) (hinv : Inv s apps) (hon : s.online = true) (hst : s.st = .activeIdle none np coll)
+    (hlate : ∀ l, s.lastBusActivity = some l → l < p1) (hto : 0 < s.p.tokenLostTimeout)
+    (hfresh : s.pendingBytes < rx.length ∨ ∃ l, s.lastBusActivity = some l ∧ p1 < l + (s.p.tokenLostTimeout : Nat))
+    (hrx : receiveAll rx = .done rx' [(.token da sa, true)] ret)
+    (hda : da.toNat = s.p.address) (hsa : sa.toNat ≠ s.p.address) (hsrc : sa.toNat = s.ring.ps ∨ np = some sa.toNat) :
+    ∃ c1, s.poll apps p1 false rx = .ok c1 ∧ c1.tx = none ∧ c1.calls = [] ∧ c1.rx = [] ∧
+      c1.s.st = .useToken ⟨p1, none⟩ false ∧ c1.s.lastBusActivity = some p1 ∧
+      ∀ (early : List Int) (t : Int), (∀ e ∈ early, e ≤ p1 + (s.p.bits 33 : Nat)) → p1 + (s.p.bits 33 : Nat) < t →
+        QuietThenTx s.p.address c1.s c1.apps early t := by
+  obtain ⟨c1, h1, h2, h3, h4, h5, h6, h7, -, h9, h10⟩ :=
+    token_accepted_idle s apps p1 rx rx' np coll da sa ret hon hst hlate hto hfresh hrx hda hsa hsrc
+  obtain ⟨c', hc', hinv', -⟩ := pollInner_good { s := s, apps := apps, rx := rx } p1 false hinv rfl
+  have : c' = c1 := by
+    have h1' : pollInner { s := s, apps := apps, rx := rx } p1 false = .ok c1 := h1
+    rw [hc'] at h1'; cases h1'; rfl
+  subst this
+  refine ⟨c', h1, h2, h3, h4, h6, h7, fun early t he ht => ?_⟩
+  have := holder_starts_after_pause c'.s c'.apps p1 ⟨p1, none⟩ false hinv' h10 h6 h7 early t
+    (by rw [h9]; exact he) (by rw [h9]; exact ht)
+  rw [h9] at this
+  exact this
+
+/-- **Part 1, `CheckTokenPass` start** (the station still supervises its own pass when the token comes
+back, e.g. in a two-station ring). -/
+theorem handover_receiver_starts_check (s : Station) (apps : Apps) (p1 : Int) (rx rx' : Bytes) (att : Attempt)
+    (da sa : UInt8) (ret : Bool) (hinv : Inv s apps) (hon : s.online = true) (hst : s.st = .checkTokenPass att)
+    (hlate : ∀ l, s.lastBusActivity = some l → l < p1)
+    (hfresh : s.pendingBytes < rx.length ∨ ∃ l, s.lastBusActivity = some l ∧ p1 ≤ l + (s.p.slotTime : Nat))
+    (hrx : receiveAll rx = .done rx' [(.token da sa, true)] ret)
+    (hda : da.toNat = s.p.address) (hsa : sa.toNat ≠ s.p.address) (hsrc : sa.toNat = s.ring.ps) :
+    ∃ c1, s.poll apps p1 false rx = .ok c1 ∧ c1.tx = none ∧ c1.calls = [] ∧ c1.rx = [] ∧
+      c1.s.st = .useToken ⟨p1, none⟩ false ∧ c1.s.lastBusActivity = some p1 ∧
+      ∀ (early : List Int) (t : Int), (∀ e ∈ early, e ≤ p1 + (s.p.bits 33 : Nat)) → p1 + (s.p.bits 33 : Nat) < t →
+        QuietThenTx s.p.address c1.s c1.apps early t := by
+  obtain ⟨c1, h1, h2, h3, h4, h5, h6, h7, -, h9, h10⟩ :=
+    token_accepted_check s apps p1 rx rx' att da sa ret hon hst hlate hfresh hrx hda hsa hsrc
+  obtain ⟨c', hc', hinv', -⟩ := pollInner_good { s := s, apps := apps, rx := rx } p1 false hinv rfl
+  have : c' = c1 := by
+    have h1' : pollInner { s := s, apps := apps, rx := rx } p1 false = .ok c1 := h1
+    rw [hc'] at h1'; cases h1'; rfl
+  subst this
+  refine ⟨c', h1, h2, h3, h4, h6, h7, fun early t he ht => ?_⟩
+  have := holder_starts_after_pause c'.s c'.apps p1 ⟨p1, none⟩ false hinv' h10 h6 h7 early t
+    (by rw [h9]; exact he) (by rw [h9]; exact ht)
+  rw [h9] at this
+  exact this
+
+/-- **Part 1, timed form.**  If the token holder (stamp `l`, e.g. `l = p1` after the accepting poll) is
+polled at times `t 0, t 1, …` with `t 0 ≤ l + P`, gaps at most `P`, silent bus, and the schedule goes on
+beyond `l + 33 bit`, then its first transmission starts at a poll time in
+`(l + 33 bit, l + 33 bit + P]`, and no earlier poll transmits. -/
+theorem holder_starts_timed (s : Station) (apps : Apps) (l : Int) (d : UseData) (fcd : Bool)
+    (hinv : Inv s apps) (hon : s.online = true) (hst : s.st = .useToken d fcd) (hl : s.lastBusActivity = some l)
+    (t : Nat → Int) (P : Nat) (h0 : t 0 ≤ l + P) (hgap : ∀ i, t (i + 1) ≤ t i + P)
+    (hgo : ∃ k, l + (s.p.bits 33 : Nat) < t k) :
+    ∃ n, l + (s.p.bits 33 : Nat) < t n ∧ t n ≤ l + (s.p.bits 33 : Nat) + P ∧
+      QuietThenTx s.p.address s apps ((List.range n).map t) (t n) := by
+  obtain ⟨k, hk⟩ := hgo
+  obtain ⟨n, h1, h2, h3⟩ := first_exceed_timed t l (s.p.bits 33) P h0 hgap k hk
+  refine ⟨n, h1, h2, holder_starts_after_pause s apps l d fcd hinv hon hst hl _ _ ?_ h1⟩
+  intro e he
+  simp only [List.mem_map, List.mem_range] at he
+  obtain ⟨i, hi, rfl⟩ := he
+  exact h3 i hi
+
+/-! Non-vacuity of part 1: station 3 (`pEx`), idle, pending stranger 5, stamp 0, polled at 1000 µs with
+the token 5→3.  All hypotheses of `handover_receiver_starts` hold; 33 bit times are 66 µs. -/
+def sB : Station :=
+  { (Station.new pEx) with online := true, st := .activeIdle none (some 5) 0, lastBusActivity := some 0 }
+
+theorem sB_inv : Inv sB [] := by
+  have h := inv_new pEx [] (by decide) (by decide) (by intro s hs; cases hs)
+  exact ⟨h.addr, h.hsa, h.ring, fun ho => by simp [sB] at ho, h.gap, fun a ha => by simp [sB] at ha,
+    fun a ha => by simp [sB] at ha, h.app, fun a d ha => by simp [sB] at ha, h.scripts, by simp [sB]⟩
+
+example : ∃ c1, sB.poll [] 1000 false (sendToken 3 5) = .ok c1 ∧ c1.tx = none ∧ c1.calls = [] ∧ c1.rx = [] ∧
+    c1.s.st = .useToken ⟨1000, none⟩ false ∧ c1.s.lastBusActivity = some 1000 ∧
+    ∀ (early : List Int) (t : Int), (∀ e ∈ early, e ≤ 1066) → 1066 < t → QuietThenTx 3 c1.s c1.apps early t :=
+  handover_receiver_starts sB [] 1000 (sendToken 3 5) [] (some 5) 0 3 5 true sB_inv rfl rfl
+    (by intro l hl; cases hl; decide) (by decide) (.inl (by decide)) (receiveAll_token 3 5) rfl (by decide) (.inr rfl)
 
 end PV.C01
